@@ -42,6 +42,7 @@ REQUESTS = {
     "def12": (33, [(1, [SV]), (2, [DV])], False),
     "def1_unknown_vid": (33, [(1, [VID_UNKNOWN])], False),
     "def2_then_bad": (33, [(2, [SV]), (1, [VID_UNKNOWN])], False),
+    "bad_then_def2": (33, [(1, [VID_UNKNOWN]), (2, [DV])], False),
     "def1_twice": (33, [(1, [SV]), (1, [DV])], True),
     "del1": (33, [(1, [])], False),
     "del2": (33, [(2, [])], False),
@@ -54,6 +55,8 @@ REQUESTS = {
     "link_c2_r1": (35, [(2, [1])], False),
     "link_c1c2_r1": (35, [(1, [1]), (2, [1])], False),
     "link_c2_then_bad": (35, [(2, [1]), (1, [9])], False),
+    "link_bad_then_c2": (35, [(1, [9]), (2, [1])], False),
+    "link_c1c2_r2": (35, [(1, [2]), (2, [2])], False),
     "link_c77_r1": (35, [(77, [1])], False),
     "unlink_c1": (35, [(1, [])], False),
     "enable_c1": (37, (True, [1]), False),
@@ -63,7 +66,8 @@ REQUESTS = {
     "enable_c2": (37, (True, [2]), False),
 }
 ALPHABET_QUICK = ["def1_sv", "link_c1_r1", "enable_all", "def2_dv", "link_c1_r12", "del1", "link_c1_r11", "delall", "unlink_c1",
-                  "link_c2_r1", "def1_svdv", "disable_c1", "def1_unknown_vid", "link_c2_then_bad", "set_sv", "del2", "link_c1_r2"]
+                  "link_c2_r1", "def1_svdv", "disable_c1", "def1_unknown_vid", "link_c2_then_bad", "set_sv", "del2", "link_c1_r2",
+                  "bad_then_def2", "link_bad_then_c2", "link_c1c2_r2", "link_c1c2_r1", "def12"]
 ALPHABET_FULL = list(REQUESTS) + ["set_sv"]
 
 
